@@ -2,10 +2,10 @@ SPECIFICATION Spec
 CONSTANTS
   InitCase <- MCInitCase
   BaseNames <- MCBaseNames
-  MaxDefs = 2
-  MaxFiles = 3
-  PoolSel = {2,21}
-  LinkLongNames <- NoLink
+  MaxDefs = 3
+  MaxFiles = 2
+  PoolSel = {28,29,32}
+  LinkFormulas <- NoLink
 INVARIANTS TopoOrder ForwardRefsResolve
 PROPERTIES Progress
 CHECK_DEADLOCK FALSE
